@@ -16,13 +16,16 @@ struct Saved {
 	int rc = 0;
 };
 
-inline Saved save(NifFile& nif, bool raw) {
+inline Saved save_with(NifFile& nif, bool optimize, bool sortBlocks);
+inline Saved save(NifFile& nif, bool raw) { return save_with(nif, !raw, !raw); }
+inline Saved save_with(NifFile& nif, bool optimize, bool sortBlocks) {
 	Saved s;
 	std::ostringstream os(std::ios::binary);
 	e1::WriteRecorder rec;
 	rec.attach(&os);
 	NifSaveOptions o;
-	if (raw) o = s1::raw_opts();
+	o.optimize = optimize;
+	o.sortBlocks = sortBlocks;
 	s.rc = nif.Save(os, o);
 	rec.detach();
 	s.bytes = os.str();
